@@ -747,7 +747,11 @@ func (c *Conn) recv(ctx context.Context) error {
 	if err != nil {
 		// only net errors should cause the connection to be closed. Though
 		// cassandra returning corrupt frames will be returned here as well.
-		if _, ok := err.(net.Error); ok {
+		// readFrame wraps the error of a body read that gave up (read deadline
+		// exceeded maxAttempts times): the rest of that body is still to come, so
+		// the stream is out of step and the connection can not be used any more.
+		var netErr net.Error
+		if errors.As(err, &netErr) {
 			return err
 		}
 	}
